@@ -161,7 +161,7 @@ def explain(path):
 
 
 # rules whose instances are the overflow-check sites themselves: they exist only in the overflow-checked build
-DEBUG_ONLY_RULES = {"VARINT-GUARD"}
+DEBUG_ONLY_RULES = set()
 
 
 def main(argv):
